@@ -3,11 +3,11 @@
 //! the Lean model (`lean/Driver/C19.lean` over `Generated/TestRunner.lean`).
 //!
 //! usage: c19 run <seed> <quick|thorough>
-//!        c19 replay <json>          ({"part":"api"|"cli","seed":…,"index":…})
+//!        c19 replay <json>          ({"part":"api"|"cli"|"history","seed":…,"index":…})
 //! env:   ROTO_BIN = the `roto` binary built from the repository under test
 //!        (without it the CLI part is reported as a broken correspondence).
 
-use roto::{FileSpec, FileTree, NoCtx, Runtime, SourceFile, Verdict, library};
+use roto::{Context, Ctx, FileSpec, FileTree, NoCtx, Runtime, SourceFile, Verdict, library};
 use rotov_harness::driver::{Driver, hex};
 use rotov_harness::worker::{Ended, run_batches};
 use rotov_harness::{Prng, Report};
@@ -31,6 +31,17 @@ fn runtime() -> Runtime<NoCtx> {
         }
     })
     .expect("runtime with emit")
+}
+
+/// The context of the second runtime: `Package<Ctx<C>>::run_tests(ctx)` is a sibling entry
+/// point of `Package<NoCtx>::run_tests()` and must aggregate in the same way.
+#[derive(Clone, Context)]
+struct HostCtx {
+    pub k: i32,
+}
+
+fn runtime_ctx() -> Runtime<Ctx<HostCtx>> {
+    runtime().with_context_type::<HostCtx>().expect("runtime with context")
 }
 
 /// Run `f` with stdout pointed at /dev/null (the runner prints a line per test).
@@ -88,7 +99,7 @@ struct Case {
 }
 
 const NAMES: [&str; 12] = ["a", "b", "x", "main", "check", "t1", "Z", "_u", "ab", "a_b", "test_x", "b2"];
-const MODS: [&str; 5] = ["m", "util", "sub", "zz", "t_"];
+const MODS: [&str; 7] = ["m", "util", "sub", "zz", "t_", "tests", "xpkg"];
 
 fn effect(cli: bool, id: u32) -> String {
     if cli { format!("print(\"<<T{id}>>\");") } else { format!("emit({id});") }
@@ -165,9 +176,14 @@ fn gen_case(p: &mut Prng, allow_invalid: bool) -> Case {
         used.push(m.clone());
         paths.push(vec![m.clone()]);
         if p.chance(1, 3) {
-            // a grandchild (may reuse a sibling's or the parent's name)
+            // a grandchild (may reuse a sibling's or the parent's name) …
             let g = p.pick(&MODS).to_string();
-            paths.push(vec![m.clone(), g]);
+            paths.push(vec![m.clone(), g.clone()]);
+            if p.chance(1, 2) {
+                // … and a great-grandchild: a test block may live at any depth
+                let h = p.pick(&MODS).to_string();
+                paths.push(vec![m.clone(), g, h]);
+            }
         }
     }
     let mut must_fail = None;
@@ -248,6 +264,109 @@ fn gen_case(p: &mut Prng, allow_invalid: bool) -> Case {
     Case { mods, must_fail }
 }
 
+
+// ------------------------------------------------------- boundary cases
+//
+// Class representatives that run FIRST in every stream (index < the table's
+// length), whatever the seed: test blocks at every module depth (only in
+// submodules, same name at every depth, module names that look like parts of a
+// key), and failure counts around the widths a count could be truncated to
+// (0, 1, 2, 255, 256, 257, 512; 65536 in the thorough/search run of the CLI).
+
+fn bt(name: &str, id: u32, accept: bool) -> Item {
+    Item::Test(TestDecl { name: name.to_string(), id, accept, form: id as u64 })
+}
+
+fn bf(name: &str, id: u32) -> Item {
+    Item::Fn(FnDecl { name: name.to_string(), id, ret_i32: false })
+}
+
+fn bm(path: &[&str], items: Vec<Item>) -> ModGen {
+    ModGen { path: path.iter().map(|s| s.to_string()).collect(), items }
+}
+
+/// `reject` rejecting and `accept` accepting test blocks, dealt round-robin over `paths`
+/// (declared in numeric order, which is not the sorted order of their names)
+fn counted(paths: &[&[&str]], reject: u32, accept: u32) -> Case {
+    let mut mods: Vec<ModGen> = paths.iter().map(|p| bm(p, vec![])).collect();
+    let n = mods.len();
+    let (mut left_r, mut left_a) = (reject, accept);
+    for i in 0..reject + accept {
+        // the accepting ones are spread between the rejecting ones
+        let acc = if left_a > 0 && (left_r == 0 || i % 2 == 1) {
+            left_a -= 1;
+            true
+        } else {
+            left_r -= 1;
+            false
+        };
+        mods[i as usize % n].items.push(Item::Test(TestDecl { name: format!("t{i}"), id: i + 1, accept: acc, form: 0 }));
+    }
+    Case { mods, must_fail: None }
+}
+
+const DEEP: [&[&str]; 4] = [&[], &["m"], &["m", "util"], &["m", "util", "sub"]];
+
+fn boundary_api(k: u64) -> Option<Case> {
+    let c = |mods| Some(Case { mods, must_fail: None });
+    match k {
+        // tests only in submodules, one per depth 1..3, the deepest one rejects
+        0 => c(vec![
+            bm(&[], vec![bf("a", 1)]),
+            bm(&["m"], vec![bt("a", 2, true)]),
+            bm(&["m", "util"], vec![bt("a", 3, true)]),
+            bm(&["m", "util", "sub"], vec![bt("b", 4, false)]),
+        ]),
+        // the same, every block accepts (the run must succeed)
+        1 => c(vec![
+            bm(&[], vec![bf("a", 1)]),
+            bm(&["m"], vec![bt("a", 2, true)]),
+            bm(&["m", "util"], vec![bt("a", 3, true)]),
+            bm(&["m", "util", "sub"], vec![bt("b", 4, true)]),
+        ]),
+        // one name at every depth (and a function of that name); only depth 2 rejects
+        2 => c(vec![
+            bm(&[], vec![bt("t1", 1, true), bf("t1", 2)]),
+            bm(&["util"], vec![bf("t1", 3), bt("t1", 4, true)]),
+            bm(&["util", "sub"], vec![bt("t1", 5, false)]),
+            bm(&["util", "sub", "zz"], vec![bt("t1", 6, true), bf("t1", 7)]),
+        ]),
+        // accepting tests in the root, the only rejecting one in a child
+        3 => c(vec![bm(&[], vec![bt("a", 1, true), bt("b", 2, true)]), bm(&["sub"], vec![bt("a", 3, false)])]),
+        // module and item names that look like pieces of a key
+        4 => c(vec![
+            bm(&[], vec![bf("test_x", 1), bt("test_x", 2, true)]),
+            bm(&["tests"], vec![bt("tests", 3, true), bf("tests_", 4)]),
+            bm(&["xpkg"], vec![bt("pkg_", 5, false), bf("test_x", 6)]),
+            bm(&["xpkg", "tests"], vec![bt("x", 7, true), bt("xpkg", 8, false)]),
+        ]),
+        // siblings, the rejecting block in the module that sorts last / first
+        5 => c(vec![bm(&[], vec![]), bm(&["m"], vec![bt("a", 1, true)]), bm(&["util"], vec![bt("a", 2, true)]), bm(&["zz"], vec![bt("a", 3, false)])]),
+        6 => c(vec![bm(&[], vec![bt("z", 1, true)]), bm(&["m"], vec![bt("a", 2, false)]), bm(&["zz"], vec![bt("a", 3, true)])]),
+        // failure counts
+        7 => Some(counted(&[&[]], 0, 3)),
+        8 => Some(counted(&[&[]], 1, 0)),
+        9 => Some(counted(&[&[]], 2, 0)),
+        10 => Some(counted(&[&[]], 255, 0)),
+        11 => Some(counted(&[&[]], 256, 0)),
+        12 => Some(counted(&[&[]], 257, 0)),
+        13 => Some(counted(&[&[]], 512, 0)),
+        14 => Some(counted(&[&[]], 256, 5)),
+        15 => Some(counted(&DEEP, 256, 0)),
+        16 => Some(counted(&DEEP, 0, 40)),
+        _ => None,
+    }
+}
+
+const N_API_BOUNDARY: u64 = 17;
+
+fn api_case_for(seed: u64, idx: u64) -> Case {
+    match boundary_api(idx) {
+        Some(c) => c,
+        None => gen_case(&mut Prng::for_case(seed, idx), true),
+    }
+}
+
 fn file_tree(case: &Case) -> FileTree {
     fn sf(name: &str, module: &str, contents: String) -> SourceFile {
         SourceFile {
@@ -258,26 +377,39 @@ fn file_tree(case: &Case) -> FileTree {
             children: Vec::new(),
         }
     }
-    let root = case.mods.iter().find(|m| m.path.is_empty()).unwrap();
-    let mut specs = vec![];
-    for m in case.mods.iter().filter(|m| m.path.len() == 1) {
-        let grands: Vec<FileSpec> = case
+    // the modules below `path`, recursively (a module with children is a Directory)
+    fn spec(case: &Case, m: &ModGen) -> FileSpec {
+        let kids: Vec<FileSpec> = case
             .mods
             .iter()
-            .filter(|g| g.path.len() == 2 && g.path[0] == m.path[0])
-            .map(|g| FileSpec::File(sf(&format!("{}/{}.roto", g.path[0], g.path[1]), &g.path[1], g.src(false))))
+            .filter(|g| g.path.len() == m.path.len() + 1 && g.path[..m.path.len()] == m.path[..])
+            .map(|g| spec(case, g))
             .collect();
-        let f = sf(&format!("{}.roto", m.path[0]), &m.path[0], m.src(false));
-        specs.push(if grands.is_empty() { FileSpec::File(f) } else { FileSpec::Directory(f, grands) });
+        let (fname, module) = match m.path.last() {
+            None => ("pkg.roto".to_string(), "pkg".to_string()),
+            Some(last) => (format!("{}.roto", m.path.join("/")), last.clone()),
+        };
+        let f = sf(&fname, &module, m.src(false));
+        if kids.is_empty() && !m.path.is_empty() { FileSpec::File(f) } else { FileSpec::Directory(f, kids) }
     }
-    FileTree::file_spec(FileSpec::Directory(sf("pkg.roto", "pkg", root.src(false)), specs))
+    let root = case.mods.iter().find(|m| m.path.is_empty()).unwrap();
+    FileTree::file_spec(spec(case, root))
+}
+
+/// where the module lives in a package directory on disk (`roto <cmd> script/`)
+fn disk_path(case: &Case, m: &ModGen) -> String {
+    if m.path.is_empty() {
+        return "script/pkg.roto".to_string();
+    }
+    let has_children = case.mods.iter().any(|g| g.path.len() == m.path.len() + 1 && g.path[..m.path.len()] == m.path[..]);
+    if has_children { format!("script/{}/mod.roto", m.path.join("/")) } else { format!("script/{}.roto", m.path.join("/")) }
 }
 
 fn case_json(case: &Case, cli: bool) -> Value {
     let files: BTreeMap<String, String> = case
         .mods
         .iter()
-        .map(|m| (if m.path.is_empty() { "pkg".to_string() } else { m.path.join("/") }, m.src(cli)))
+        .map(|m| (if m.path.is_empty() { "pkg".to_string() } else { m.path.join("/") }, abbreviate(&m.src(cli))))
         .collect();
     json!({"files": files, "must_fail": case.must_fail})
 }
@@ -304,6 +436,56 @@ fn unhex(s: &str) -> String {
     String::from_utf8_lossy(&b).to_string()
 }
 
+
+// ------------------------------------------------------------- the model
+//
+// The Lean driver speaks for the tree's regenerated definitions.  When the
+// extraction failed (search mode) it cannot be built: the implementation is
+// then compared with the property's oracle only, and the missing model is
+// reported once as a broken correspondence — never as a violation.
+
+struct Model {
+    drv: Option<Driver>,
+    complained: bool,
+}
+
+impl Model {
+    fn spawn() -> Model {
+        let off = std::env::var("C19_MODEL").map(|v| v == "off").unwrap_or(false);
+        let mut drv = if off { None } else { Driver::spawn().ok() };
+        // a driver that does not answer the protocol is as good as none
+        if let Some(d) = drv.as_mut() {
+            let ok = std::panic::catch_unwind(std::panic::AssertUnwindSafe(|| d.ask("c19 keys"))).map(|a| a.starts_with("ok")).unwrap_or(false);
+            if !ok {
+                drv = None;
+            }
+        }
+        Model { drv, complained: false }
+    }
+    fn ask(&mut self, rep: &mut Report, req: &str) -> Option<String> {
+        match self.drv.as_mut() {
+            Some(d) => Some(d.ask(req)),
+            None => {
+                if !self.complained {
+                    self.complained = true;
+                    rep.mismatch("the Lean driver of the current tree is not available: implementation compared with the oracle only", json!({}));
+                }
+                None
+            }
+        }
+    }
+}
+
+/// long sources are abbreviated in witnesses (the case replays from seed and index)
+fn abbreviate(s: &str) -> String {
+    if s.len() <= 1500 {
+        s.to_string()
+    } else {
+        let cut = (0..=1200).rev().find(|i| s.is_char_boundary(*i)).unwrap_or(0);
+        format!("{}… [{} bytes in all]", &s[..cut], s.len())
+    }
+}
+
 // ------------------------------------------------------------------ API part
 
 fn existing_keys(pkg: &mut roto::Package<NoCtx>) -> Vec<String> {
@@ -317,10 +499,9 @@ fn existing_keys(pkg: &mut roto::Package<NoCtx>) -> Vec<String> {
     }
 }
 
-fn api_case(rep: &mut Report, drv: &mut Driver, seed: u64, idx: u64) {
-    let mut p = Prng::for_case(seed, idx);
-    let case = gen_case(&mut p, true);
-    let cj = json!({"part": "api", "seed": seed, "index": idx, "case": case_json(&case, false)});
+fn api_case(rep: &mut Report, drv: &mut Model, seed: u64, idx: u64) {
+    let case = api_case_for(seed, idx);
+    let cj = json!({"part": "api", "seed": seed, "index": idx, "boundary": idx < N_API_BOUNDARY, "case": case_json(&case, false)});
     rep.evaluations += 1;
     let rt = runtime();
     let all_tests: Vec<(String, &TestDecl)> = case
@@ -380,19 +561,20 @@ fn api_case(rep: &mut Report, drv: &mut Driver, seed: u64, idx: u64) {
         );
     }
     let req = format!("c19 keys {}", keys.iter().map(|k| hex(k)).collect::<Vec<_>>().join(" "));
-    let ans = drv.ask(req.trim_end());
-    let predicted: Vec<String> = ans.split(' ').skip(1).map(unhex).collect();
-    if !ans.starts_with("ok") {
-        rep.mismatch("Lean keys request failed", json!({"request": req, "answer": ans}));
+    let ans = drv.ask(rep, req.trim_end());
+    let predicted: Option<Vec<String>> = ans.as_ref().map(|a| a.split(' ').skip(1).map(unhex).collect());
+    if let Some(a) = &ans {
+        if !a.starts_with("ok") {
+            rep.mismatch("Lean keys request failed", json!({"request": abbreviate(&req), "answer": abbreviate(a)}));
+        }
     }
     let id_of: BTreeMap<&str, u32> = all_tests.iter().map(|(k, t)| (k.as_str(), t.id)).collect();
-    let predicted_ids: Vec<u32> = predicted.iter().filter_map(|k| id_of.get(k.as_str()).copied()).collect();
+    let predicted_ids: Option<Vec<u32>> =
+        predicted.as_ref().map(|p| p.iter().filter_map(|k| id_of.get(k.as_str()).copied()).collect());
 
     // ---- get_tests
     let names: Vec<String> = pkg.get_tests().map(|t| t.name().to_string()).collect();
-    let lean_tests = drv.ask(format!("c19 tests {} {}", DBG as u8, entries(&case).join(" ")).trim_end());
-    let lean_names: Vec<String> =
-        lean_tests.split(' ').skip(1).map(|x| unhex(x.split(':').next().unwrap_or(""))).collect();
+    let lean_tests = drv.ask(rep, format!("c19 tests {} {}", DBG as u8, entries(&case).join(" ")).trim_end());
     if names.len() != all_tests.len() {
         rep.violation(
             "get_tests does not return one case per test block",
@@ -400,11 +582,15 @@ fn api_case(rep: &mut Report, drv: &mut Driver, seed: u64, idx: u64) {
             json!({"case": cj, "names": names}),
         );
     }
-    if !lean_tests.starts_with("ok") || lean_names != names {
-        rep.mismatch(
-            "get_tests names differ from the model",
-            json!({"case": cj, "real": names, "lean": lean_tests}),
-        );
+    if let Some(lean_tests) = &lean_tests {
+        let lean_names: Vec<String> =
+            lean_tests.split(' ').skip(1).map(|x| unhex(x.split(':').next().unwrap_or(""))).collect();
+        if !lean_tests.starts_with("ok") || lean_names != names {
+            rep.mismatch(
+                "get_tests names differ from the model",
+                json!({"case": cj, "real": names, "lean": abbreviate(lean_tests)}),
+            );
+        }
     }
 
     // ---- run_tests, twice, and on a second compilation
@@ -420,20 +606,57 @@ fn api_case(rep: &mut Report, drv: &mut Driver, seed: u64, idx: u64) {
         }
         Err(_) => (Err(()), vec![]),
     };
+    // the sibling entry point: the same package compiled for a runtime with a context
+    let (r4, l4) = if all_tests.len() <= 64 {
+        let rtc = runtime_ctx();
+        match quiet(|| file_tree(&case).compile(&rtc)) {
+            Ok(mut pkgc) => {
+                take_log();
+                let r = quiet(|| pkgc.run_tests(HostCtx { k: 7 }));
+                (Some(r), take_log())
+            }
+            Err(e) => {
+                rep.mismatch("generated script does not compile for a runtime with a context", json!({"case": cj, "error": e.to_string()}));
+                (None, vec![])
+            }
+        }
+    } else {
+        (None, vec![])
+    };
     let all_accept = all_tests.iter().all(|(_, t)| t.accept);
+    // discovery per module: how many blocks each module declares and how many of them ran
+    let per_module: BTreeMap<String, (usize, usize)> = case
+        .mods
+        .iter()
+        .map(|m| {
+            let ts = m.tests();
+            (m.key(""), (ts.len(), ts.iter().filter(|t| l1.contains(&t.id)).count()))
+        })
+        .collect();
     let witness = json!({"case": cj, "result": format!("{r1:?}"), "log": l1,
-        "outcomes": all_tests.iter().map(|(k, t)| json!([k, t.id, if t.accept {"accept"} else {"reject"}])).collect::<Vec<_>>()});
+        "rejecting_blocks": all_tests.iter().filter(|(_, t)| !t.accept).count(),
+        "per_module [declared, ran]": per_module,
+        "outcomes": all_tests.iter().take(40).map(|(k, t)| json!([k, t.id, if t.accept {"accept"} else {"reject"}])).collect::<Vec<_>>()});
     match (r1.is_ok(), all_accept) {
         (true, false) => rep.violation("run_tests returned Ok although a test rejected", "run_tests ok despite reject", witness.clone()),
         (false, true) => rep.violation("run_tests returned Err although every test accepted", "run_tests err without reject", witness.clone()),
         _ => {}
     }
+    let mut reported = 0;
     for (k, t) in &all_tests {
         let n = l1.iter().filter(|x| **x == t.id).count();
-        if n == 0 {
-            rep.violation(&format!("test {k} did not run"), "test did not run", witness.clone());
-        } else if n > 1 {
-            rep.violation(&format!("test {k} ran {n} times in one run_tests"), "test ran twice", witness.clone());
+        if n != 1 && reported < 3 {
+            reported += 1;
+            if n == 0 {
+                rep.violation(&format!("test {k} did not run"), "test did not run", witness.clone());
+            } else {
+                rep.violation(&format!("test {k} ran {n} times in one run_tests"), "test ran twice", witness.clone());
+            }
+        }
+    }
+    for (module, (declared, ran)) in &per_module {
+        if ran < declared {
+            rep.class(format!("undiscovered|depth {}", module.matches('.').count() - 1));
         }
     }
     if l1.iter().any(|id| !all_tests.iter().any(|(_, t)| t.id == *id)) {
@@ -446,6 +669,39 @@ fn api_case(rep: &mut Report, drv: &mut Driver, seed: u64, idx: u64) {
             json!({"case": cj, "first": l1, "second": l2}),
         );
     }
+    if let Some(r4) = r4 {
+        rep.hist("entry points", "NoCtx and Ctx");
+        match (r4.is_ok(), all_accept) {
+            (true, false) => rep.violation(
+                "Package<Ctx<C>>::run_tests returned Ok although a test rejected",
+                "run_tests (context runtime) ok despite reject",
+                json!({"witness": witness, "context_result": format!("{r4:?}"), "context_log": l4}),
+            ),
+            (false, true) => rep.violation(
+                "Package<Ctx<C>>::run_tests returned Err although every test accepted",
+                "run_tests (context runtime) err without reject",
+                json!({"witness": witness, "context_result": format!("{r4:?}"), "context_log": l4}),
+            ),
+            _ => {}
+        }
+        let mut sorted_ids: Vec<u32> = l4.clone();
+        sorted_ids.sort();
+        let mut want_ids: Vec<u32> = all_tests.iter().map(|(_, t)| t.id).collect();
+        want_ids.sort();
+        if sorted_ids != want_ids {
+            rep.violation(
+                "Package<Ctx<C>>::run_tests did not run every test block exactly once",
+                "run_tests (context runtime) blocks not run exactly once",
+                json!({"witness": witness, "context_log": l4}),
+            );
+        } else if l4 != l1 && l1.len() == all_tests.len() {
+            rep.violation(
+                "the run order differs between the runtime without and with a context (order must depend on the names only)",
+                "test order differs between runtimes",
+                json!({"witness": witness, "context_log": l4}),
+            );
+        }
+    }
     if l1 != l3 || r1 != r3 {
         rep.violation(
             "run_tests on two compilations of the same script differ (order must depend on the names only)",
@@ -453,21 +709,24 @@ fn api_case(rep: &mut Report, drv: &mut Driver, seed: u64, idx: u64) {
             json!({"case": cj, "first": l1, "second": l3}),
         );
     }
-    if l1 != predicted_ids {
-        rep.mismatch(
-            "execution order differs from the model's sorted order of the real table's keys",
-            json!({"case": cj, "real": l1, "model": predicted_ids, "model_keys": predicted}),
-        );
+    if let Some(predicted_ids) = &predicted_ids {
+        if &l1 != predicted_ids {
+            rep.mismatch(
+                "execution order differs from the model's sorted order of the real table's keys",
+                json!({"case": cj, "real": l1, "model": predicted_ids}),
+            );
+        }
     }
-    let lean_run = drv.ask(format!("c19 run {} {}", DBG as u8, entries(&case).join(" ")).trim_end());
-    let mut w = lean_run.split(' ');
-    let lean_res = w.next().unwrap_or("");
-    let lean_ids: Vec<u32> = w.filter_map(|k| id_of.get(unhex(k).as_str()).copied()).collect();
-    if lean_res != if r1.is_ok() { "Ok" } else { "Err" } || lean_ids != l1 {
-        rep.mismatch(
-            "run_tests differs from the generated model's run_tests",
-            json!({"case": cj, "real": [format!("{r1:?}"), format!("{l1:?}")], "lean": lean_run}),
-        );
+    if let Some(lean_run) = drv.ask(rep, format!("c19 run {} {}", DBG as u8, entries(&case).join(" ")).trim_end()) {
+        let mut w = lean_run.split(' ');
+        let lean_res = w.next().unwrap_or("");
+        let lean_ids: Vec<u32> = w.filter_map(|k| id_of.get(unhex(k).as_str()).copied()).collect();
+        if lean_res != if r1.is_ok() { "Ok" } else { "Err" } || lean_ids != l1 {
+            rep.mismatch(
+                "run_tests differs from the generated model's run_tests",
+                json!({"case": cj, "real": [format!("{r1:?}"), format!("{l1:?}")], "lean": abbreviate(&lean_run)}),
+            );
+        }
     }
 
     // ---- get_function on every function (most collide with a test) and on test-only names
@@ -496,8 +755,8 @@ fn api_case(rep: &mut Report, drv: &mut Driver, seed: u64, idx: u64) {
                     json!({"case": cj, "name": name}),
                 );
             }
-            let lean = drv.ask(format!("c19 getfn {} {} {}", if f.ret_i32 { 'o' } else { 'e' }, hex(&name), entries(&case).join(" ")).trim_end());
-            if !lean.starts_with("ok ") {
+            let lean = drv.ask(rep, format!("c19 getfn {} {} {}", if f.ret_i32 { 'o' } else { 'e' }, hex(&name), entries(&case).join(" ")).trim_end());
+            if lean.as_ref().is_some_and(|l| !l.starts_with("ok ")) {
                 rep.mismatch("model get_function differs", json!({"case": cj, "name": name, "lean": lean}));
             }
             if m.tests().iter().any(|t| t.name == f.name) {
@@ -516,8 +775,8 @@ fn api_case(rep: &mut Report, drv: &mut Driver, seed: u64, idx: u64) {
                     json!({"case": cj, "name": name}),
                 );
             }
-            let lean = drv.ask(format!("c19 getfn t {} {}", hex(&name), entries(&case).join(" ")).trim_end());
-            if lean != "missing" {
+            let lean = drv.ask(rep, format!("c19 getfn t {} {}", hex(&name), entries(&case).join(" ")).trim_end());
+            if lean.as_ref().is_some_and(|l| l != "missing") {
                 rep.mismatch("model get_function differs", json!({"case": cj, "name": name, "lean": lean}));
             }
         }
@@ -538,7 +797,7 @@ const SITUATIONS: [&str; 13] = [
 ];
 
 struct CliCase {
-    situation: &'static str,
+    situation: String,
     cmd: &'static str,
     function: Option<String>,
     case: Case,
@@ -622,10 +881,61 @@ fn gen_cli(p: &mut Prng) -> CliCase {
     if !parse_ok || !type_ok || !read_ok {
         // the model's world needs no table then
     }
-    CliCase { situation, cmd, function, case, root_extra, directory, read_ok, parse_ok, type_ok, entry_sig, entry_name }
+    CliCase { situation: situation.to_string(), cmd, function, case, root_extra, directory, read_ok, parse_ok, type_ok, entry_sig, entry_name }
 }
 
-fn run_bin(bin: &str, args: &[&str], cwd: &std::path::Path) -> Result<(Option<i32>, String), String> {
+/// CLI boundary table: `roto test` on failure counts around the widths an exit status could be
+/// truncated to, on packages whose test blocks live only below the root, and `check`/`run` on
+/// scripts with rejecting blocks (which must not matter to them).  The last entry has 65536 blocks.
+fn boundary_cli(k: u64) -> Option<CliCase> {
+    let mk = |situation: String, cmd: &'static str, case: Case, directory: bool| {
+        Some(CliCase {
+            situation,
+            cmd,
+            function: None,
+            case,
+            root_extra: "fn main() {\n    print(\"<<ENTRY>>\");\n}\n".to_string(),
+            directory,
+            read_ok: true,
+            parse_ok: true,
+            type_ok: true,
+            entry_sig: Some('e'),
+            entry_name: "main".to_string(),
+        })
+    };
+    const COUNTS: [u32; 7] = [0, 1, 2, 255, 256, 257, 512];
+    if (k as usize) < COUNTS.len() {
+        let n = COUNTS[k as usize];
+        return mk(format!("{n} rejecting blocks"), "test", counted(&[&[]], n, if n == 0 { 2 } else { 0 }), false);
+    }
+    match k - COUNTS.len() as u64 {
+        0 => mk("256 rejecting + 3 accepting blocks".into(), "test", counted(&[&[]], 256, 3), false),
+        1 => mk("256 rejecting blocks over 4 module depths".into(), "test", counted(&DEEP, 256, 0), true),
+        2 => mk("blocks only below the root, deepest rejects".into(), "test", boundary_api(0).unwrap(), true),
+        3 => mk("blocks only below the root, all accept".into(), "test", boundary_api(1).unwrap(), true),
+        4 => mk("one name at every depth, depth 2 rejects".into(), "test", boundary_api(2).unwrap(), true),
+        5 => mk("key-like module names".into(), "test", boundary_api(4).unwrap(), true),
+        6 => mk("rejecting block in the last sibling".into(), "test", boundary_api(5).unwrap(), true),
+        7 => mk("256 rejecting blocks".into(), "check", counted(&[&[]], 256, 0), false),
+        8 => mk("256 rejecting blocks".into(), "run", counted(&[&[]], 256, 0), false),
+        9 => mk("blocks only below the root, deepest rejects".into(), "run", boundary_api(0).unwrap(), true),
+        10 => mk("65536 rejecting blocks".into(), "test", counted(&[&[]], 65536, 0), false),
+        _ => None,
+    }
+}
+
+const N_CLI_BOUNDARY: u64 = 18;
+/// the 65536-block case: skipped by the quick tier (it is index 17 in every tier)
+const GIANT_IDX: u64 = 17;
+
+fn cli_case_for(seed: u64, idx: u64) -> CliCase {
+    match boundary_cli(idx) {
+        Some(c) => c,
+        None => gen_cli(&mut Prng::for_case(seed ^ 0xC11C11, idx)),
+    }
+}
+
+fn run_bin(bin: &str, args: &[&str], cwd: &std::path::Path, timeout: Duration) -> Result<(Option<i32>, String), String> {
     use std::io::Read;
     use std::process::{Command, Stdio};
     let mut child = Command::new(bin)
@@ -650,7 +960,7 @@ fn run_bin(bin: &str, args: &[&str], cwd: &std::path::Path) -> Result<(Option<i3
                 return Ok((st.code(), s));
             }
             None => {
-                if start.elapsed() > Duration::from_secs(60) {
+                if start.elapsed() > timeout {
                     let _ = child.kill();
                     let _ = child.wait();
                     return Err("timeout".into());
@@ -661,9 +971,8 @@ fn run_bin(bin: &str, args: &[&str], cwd: &std::path::Path) -> Result<(Option<i3
     }
 }
 
-fn cli_case(rep: &mut Report, drv: &mut Driver, bin: &str, scratch: &std::path::Path, seed: u64, idx: u64) {
-    let mut p = Prng::for_case(seed ^ 0xC11C11, idx);
-    let c = gen_cli(&mut p);
+fn cli_case(rep: &mut Report, drv: &mut Model, bin: &str, scratch: &std::path::Path, seed: u64, idx: u64) {
+    let c = cli_case_for(seed, idx);
     rep.evaluations += 1;
     let dir = scratch.join(format!("case{idx}"));
     let _ = std::fs::remove_dir_all(&dir);
@@ -675,17 +984,10 @@ fn cli_case(rep: &mut Report, drv: &mut Driver, bin: &str, scratch: &std::path::
         target = "script".to_string();
         for m in &c.case.mods {
             let mut src = m.src(true);
-            let rel = match m.path.len() {
-                0 => {
-                    src.push_str(&c.root_extra);
-                    "script/pkg.roto".to_string()
-                }
-                1 => {
-                    let has_children = c.case.mods.iter().any(|g| g.path.len() == 2 && g.path[0] == m.path[0]);
-                    if has_children { format!("script/{}/mod.roto", m.path[0]) } else { format!("script/{}.roto", m.path[0]) }
-                }
-                _ => format!("script/{}/{}.roto", m.path[0], m.path[1]),
-            };
+            if m.path.is_empty() {
+                src.push_str(&c.root_extra);
+            }
+            let rel = disk_path(&c.case, m);
             files.insert(rel, src);
         }
     } else {
@@ -707,8 +1009,9 @@ fn cli_case(rep: &mut Report, drv: &mut Driver, bin: &str, scratch: &std::path::
         }
     }
     let cj = json!({"part": "cli", "seed": seed, "index": idx, "situation": c.situation, "argv": args,
-        "files": if c.read_ok { json!(files) } else { json!({}) }});
-    let ran = run_bin(bin, &args, &dir);
+        "files": if c.read_ok { json!(files.iter().map(|(k, v)| (k.clone(), abbreviate(v))).collect::<BTreeMap<_, _>>()) } else { json!({}) }});
+    let nblocks: usize = c.case.mods.iter().map(|m| m.tests().len()).sum();
+    let ran = run_bin(bin, &args, &dir, Duration::from_secs(if nblocks > 4096 { 1500 } else { 120 }));
     let _ = std::fs::remove_dir_all(&dir);
     let (code, stdout) = match ran {
         Ok(x) => x,
@@ -758,7 +1061,8 @@ fn cli_case(rep: &mut Report, drv: &mut Driver, bin: &str, scratch: &std::path::
     rep.hist("cli situation", format!("{} / {}", c.cmd, c.situation));
     rep.class(format!("cli|{}|{}|{}|{}", c.cmd, c.situation, why, c.directory));
     let entry_runs = stdout.matches("<<ENTRY>>").count();
-    let witness = json!({"case": cj, "exit": code, "stdout": stdout.chars().take(1500).collect::<String>(), "expected": if must_fail {"failure"} else {"success"}, "why": why});
+    let witness = json!({"case": cj, "exit": code, "stdout": stdout.chars().take(1500).collect::<String>(), "expected": if must_fail {"failure"} else {"success"}, "why": why,
+        "blocks": tests.len(), "rejecting_blocks": tests.iter().filter(|(_, t)| !t.accept).count()});
     match code {
         None => rep.violation(&format!("roto {} was killed by a signal", c.cmd), &format!("cli {} killed by signal", c.cmd), witness.clone()),
         Some(0) if must_fail => rep.violation(
@@ -786,57 +1090,186 @@ fn cli_case(rep: &mut Report, drv: &mut Driver, bin: &str, scratch: &std::path::
         }
     }
     // test bodies: under `test` (no compile error) each once in sorted-key order, otherwise never
+    // (one pass over stdout: id ↦ (times printed, first position))
+    let mut marks: std::collections::HashMap<u32, (usize, usize)> = std::collections::HashMap::new();
+    {
+        let mut at = 0;
+        while let Some(i) = stdout[at..].find("<<T") {
+            let start = at + i;
+            let digits: String = stdout[start + 3..].chars().take_while(|c| c.is_ascii_digit()).collect();
+            if !digits.is_empty() && stdout[start + 3 + digits.len()..].starts_with(">>") {
+                if let Ok(id) = digits.parse::<u32>() {
+                    let e = marks.entry(id).or_insert((0, start));
+                    e.0 += 1;
+                }
+            }
+            at = start + 3;
+        }
+    }
     let mut sorted = tests.clone();
     sorted.sort_by(|a, b| a.0.cmp(&b.0));
     let mut positions = vec![];
+    let mut reported = 0;
     for (k, t) in &sorted {
-        let n = stdout.matches(&format!("<<T{}>>", t.id)).count();
+        let n = marks.get(&t.id).map(|m| m.0).unwrap_or(0);
         let want = if c.cmd == "test" && !compile_error { 1 } else { 0 };
-        if n != want {
+        if n != want && reported < 3 {
+            reported += 1;
             rep.violation(
                 &format!("roto {}: test {k} ran {n} times, expected {want}", c.cmd),
                 &format!("cli {}: test ran {n} times", c.cmd),
                 witness.clone(),
             );
         }
-        positions.push(stdout.find(&format!("<<T{}>>", t.id)));
+        positions.push(marks.get(&t.id).map(|m| m.1));
     }
     if c.cmd == "test" && !compile_error && positions.iter().all(|x| x.is_some()) && !positions.windows(2).all(|w| w[0] < w[1]) {
         rep.violation("roto test: tests did not run in the sorted order of their names", "cli test: order", witness.clone());
     }
-    // ---- the model
-    let req = format!(
-        "c19 cli {} {} 0 {} {} {} {} {}",
-        c.cmd, DBG as u8, c.read_ok as u8, c.parse_ok as u8, c.type_ok as u8, hex(&wanted_fn), ents.join(" ")
-    );
-    let ans = drv.ask(req.trim_end());
-    let mut w = ans.split(' ');
-    let mcode = w.next().unwrap_or("");
-    let events: Vec<&str> = w.collect();
-    let m_entry = events.iter().filter(|e| e.starts_with("E:")).count();
-    let m_tests: Vec<String> = events.iter().filter_map(|e| e.strip_prefix("T:")).map(unhex).collect();
+    // ---- the model (its sort is quadratic: not asked about the giant case)
     let real_code = match code {
         Some(0) => "SUCCESS",
         Some(_) => "FAILURE",
         None => "signal",
     };
     let real_tests: Vec<String> = {
-        let mut v: Vec<(usize, String)> = tests
-            .iter()
-            .filter_map(|(k, t)| stdout.find(&format!("<<T{}>>", t.id)).map(|p| (p, k.clone())))
-            .collect();
+        let mut v: Vec<(usize, String)> = tests.iter().filter_map(|(k, t)| marks.get(&t.id).map(|m| (m.1, k.clone()))).collect();
         v.sort();
         v.into_iter().map(|x| x.1).collect()
     };
-    let model_entry_ok = if entry_is_planted || m_entry == 0 { m_entry == entry_runs } else { true };
-    if mcode != real_code || !model_entry_ok || (c.cmd == "test" && m_tests != real_tests) {
-        rep.mismatch(
-            "the roto binary differs from the generated model of cli/cli_inner",
-            json!({"case": cj, "request": req, "lean": ans, "exit": code, "entry_runs": entry_runs, "tests_run": real_tests}),
-        );
+    let req = format!(
+        "c19 cli {} {} 0 {} {} {} {} {}",
+        c.cmd, DBG as u8, c.read_ok as u8, c.parse_ok as u8, c.type_ok as u8, hex(&wanted_fn), ents.join(" ")
+    );
+    let ans = if tests.len() <= 2048 { drv.ask(rep, req.trim_end()) } else { None };
+    if let Some(ans) = &ans {
+        let mut w = ans.split(' ');
+        let mcode = w.next().unwrap_or("");
+        let events: Vec<&str> = w.collect();
+        let m_entry = events.iter().filter(|e| e.starts_with("E:")).count();
+        let m_tests: Vec<String> = events.iter().filter_map(|e| e.strip_prefix("T:")).map(unhex).collect();
+        let model_entry_ok = if entry_is_planted || m_entry == 0 { m_entry == entry_runs } else { true };
+        if mcode != real_code || !model_entry_ok || (c.cmd == "test" && m_tests != real_tests) {
+            rep.mismatch(
+                "the roto binary differs from the generated model of cli/cli_inner",
+                json!({"case": cj, "request": abbreviate(&req), "lean": abbreviate(ans), "exit": code, "entry_runs": entry_runs,
+                    "tests_run": real_tests.iter().take(40).collect::<Vec<_>>()}),
+            );
+        }
     }
-    if idx % 25 == 0 {
-        rep.sample(json!({"argv": cj["argv"], "situation": c.situation, "exit": code, "model": ans}));
+    if idx % 25 == 0 || idx < N_CLI_BOUNDARY {
+        rep.sample(json!({"argv": cj["argv"], "situation": c.situation, "exit": code, "blocks": tests.len(),
+            "rejecting": tests.iter().filter(|(_, t)| !t.accept).count(),
+            "model": ans.as_deref().map(|a| format!("{} ({} T-events)", a.split(' ').next().unwrap_or(""), a.matches(" T:").count()))}));
+    }
+}
+
+
+// -------------------------------------------------------------- history part
+//
+// "In a deterministic order": the order in which the blocks run may depend on the
+// package only — not on what the process compiled before (interning order of the
+// names, allocation history, …).  One case is run in three fresh processes that
+// first compile nothing / a decoy script declaring the same test names in reverse
+// order / in rotated order; the three execution orders must be equal.  (Within one
+// process such a dependence is invisible: two compilations see the same history.)
+
+fn history_case_for(seed: u64, idx: u64) -> Case {
+    match idx {
+        0 => counted(&[&[]], 0, 24),
+        1 => counted(&DEEP, 3, 37),
+        2 => boundary_api(2).unwrap(),
+        3 => boundary_api(4).unwrap(),
+        _ => gen_case(&mut Prng::for_case(seed ^ 0x4157, idx), false),
+    }
+}
+
+const N_HISTORIES: u64 = 3;
+
+fn decoy(case: &Case, history: u64) -> Option<String> {
+    let mut names: Vec<String> = vec![];
+    for m in &case.mods {
+        for t in m.tests() {
+            if !names.contains(&t.name) {
+                names.push(t.name.clone());
+            }
+        }
+    }
+    match history {
+        0 => return None,
+        1 => names.reverse(),
+        _ => {
+            let k = names.len() / 2;
+            names.rotate_left(k);
+            names.reverse();
+        }
+    }
+    Some(names.iter().map(|n| format!("test {n} {{\n    accept\n}}\n")).collect())
+}
+
+/// child process: `worker order <seed> <idx> <history>` prints `ORDER <id,id,…>` (or `SKIP <why>`)
+fn history_child(seed: u64, idx: u64, history: u64) {
+    let case = history_case_for(seed, idx);
+    let rt = runtime();
+    if let Some(src) = decoy(&case, history) {
+        let d = Case { mods: vec![ModGen { path: vec![], items: vec![Item::Raw(src)] }], must_fail: None };
+        if quiet(|| file_tree(&d).compile(&rt).map(|_| ())).is_err() {
+            println!("SKIP decoy does not compile");
+            return;
+        }
+    }
+    let Ok(mut pkg) = quiet(|| file_tree(&case).compile(&rt)) else {
+        println!("SKIP case does not compile");
+        return;
+    };
+    take_log();
+    let r = quiet(|| pkg.run_tests());
+    let log = take_log();
+    println!("ORDER {} {}", if r.is_ok() { "Ok" } else { "Err" }, log.iter().map(|x| x.to_string()).collect::<Vec<_>>().join(","));
+}
+
+fn history_part(rep: &mut Report, seed: u64, from: u64, n: u64) {
+    for idx in from..from + n {
+        let case = history_case_for(seed, idx);
+        let ntests: usize = case.mods.iter().map(|m| m.tests().len()).sum();
+        if ntests < 2 {
+            continue;
+        }
+        rep.evaluations += 1;
+        let cj = json!({"part": "history", "seed": seed, "index": idx, "case": case_json(&case, false)});
+        let (s, i) = (seed.to_string(), idx.to_string());
+        let mut outs = vec![];
+        for h in 0..N_HISTORIES {
+            let hs = h.to_string();
+            let (ended, out) = rotov_harness::worker::run_worker_keep_stdout(&["order", &s, &i, &hs], Duration::from_secs(300));
+            let line = out.lines().rev().find(|l| l.starts_with("ORDER ") || l.starts_with("SKIP ")).map(|l| l.to_string());
+            match (&ended, line) {
+                (Ended::Exit(0, _), Some(l)) => outs.push(l),
+                _ => {
+                    rep.violation(
+                        "process died (trap/abort/hang) while compiling or running the tests of a generated script",
+                        "test runner crash",
+                        json!({"case": cj, "history": h, "ended": format!("{ended:?}")}),
+                    );
+                    outs.push("SKIP crashed".into());
+                }
+            }
+        }
+        if outs.iter().any(|o| o.starts_with("SKIP")) {
+            if outs.iter().any(|o| o.starts_with("SKIP decoy") || o.starts_with("SKIP case")) {
+                rep.mismatch("history part: a generated script does not compile", json!({"case": cj, "answers": outs}));
+            }
+            continue;
+        }
+        rep.hist("history: blocks", ntests.min(40).to_string());
+        rep.class(format!("history|{}|{}", case.mods.len(), ntests.min(40)));
+        if outs.iter().any(|o| *o != outs[0]) {
+            rep.violation(
+                "the order (or result) of run_tests depends on what the process compiled before: fresh processes that first compiled nothing / the same test names in reverse / in rotated order disagree",
+                "test order depends on process history",
+                json!({"case": cj, "fresh": outs[0], "after reversed decoy": outs[1], "after rotated decoy": outs[2]}),
+            );
+        }
     }
 }
 
@@ -849,14 +1282,17 @@ fn scratch_dir() -> std::path::PathBuf {
     d
 }
 
-fn cli_part(rep: &mut Report, seed: u64, from: u64, n: u64) {
+fn cli_part(rep: &mut Report, seed: u64, from: u64, n: u64, giant: bool) {
     let Ok(bin) = std::env::var("ROTO_BIN") else {
         rep.mismatch("ROTO_BIN is not set: the roto binary was not built, the CLI part did not run", json!({}));
         return;
     };
-    let mut drv = Driver::spawn().expect("lean driver");
+    let mut drv = Model::spawn();
     let scratch = scratch_dir();
     for idx in from..from + n {
+        if idx == GIANT_IDX && !giant {
+            continue;
+        }
         cli_case(rep, &mut drv, &bin, &scratch, seed, idx);
     }
     let _ = std::fs::remove_dir_all(&scratch);
@@ -868,28 +1304,40 @@ fn main() {
     match args.get(1).map(|s| s.as_str()) {
         Some("run") => {
             let seed: u64 = args.get(2).and_then(|s| s.parse().ok()).unwrap_or(1);
-            let thorough = args.get(3).map(|s| s == "thorough").unwrap_or(false);
+            // tiers: quick | thorough | search (= the boundary tables incl. the giant count, then a thorough-sized run)
+            let tier = args.get(3).map(|s| s.as_str()).unwrap_or("quick");
+            let thorough = tier != "quick";
             let seed_s = seed.to_string();
-            let (napi, ncli) = if thorough { (5000, 1000) } else { (200, 60) };
-            run_batches(&["api", &seed_s], napi, 100, Duration::from_secs(600), &mut rep,
+            let (napi, ncli, nhist) = if thorough { (5000, 1000, 150) } else { (300, 100, 20) };
+            // the CLI boundary table first: exit status on failure counts / module depths
+            cli_part(&mut rep, seed, 0, N_CLI_BOUNDARY, thorough);
+            run_batches(&["api", &seed_s], napi, 100, Duration::from_secs(900), &mut rep,
                 |rep: &mut Report, idx: u64, how: &Ended| {
-                    let mut p = Prng::for_case(seed, idx);
-                    let case = gen_case(&mut p, true);
+                    let case = api_case_for(seed, idx);
                     rep.violation(
                         "process died (trap/abort/hang) while compiling or running the tests of a generated script",
                         "test runner crash",
                         json!({"part": "api", "seed": seed, "index": idx, "case": case_json(&case, false), "ended": format!("{how:?}")}),
                     );
                 });
-            cli_part(&mut rep, seed, 0, ncli);
-            rep.notes.push(format!("profile: dbg={DBG}; api scripts {napi}, cli invocations {ncli}"));
+            cli_part(&mut rep, seed, N_CLI_BOUNDARY, ncli - N_CLI_BOUNDARY, false);
+            history_part(&mut rep, seed, 0, nhist);
+            rep.notes.push(format!(
+                "profile: dbg={DBG}; api scripts {napi} (the first {N_API_BOUNDARY} are the boundary table), cli invocations {ncli} (the first {N_CLI_BOUNDARY} are the boundary table{}), history cases {nhist} x {N_HISTORIES} fresh processes",
+                if thorough { ", with the 65536-block case" } else { "" }
+            ));
+        }
+        Some("worker") if args.get(2).map(|s| s.as_str()) == Some("order") => {
+            std::panic::set_hook(Box::new(|_| {}));
+            history_child(args[3].parse().unwrap(), args[4].parse().unwrap(), args[5].parse().unwrap());
+            return;
         }
         Some("worker") => {
             std::panic::set_hook(Box::new(|_| {}));
             let seed: u64 = args[3].parse().unwrap();
             let from: u64 = args[4].parse().unwrap();
             let n: u64 = args[5].parse().unwrap();
-            let mut drv = Driver::spawn().expect("lean driver");
+            let mut drv = Model::spawn();
             for idx in from..from + n {
                 println!("START {idx}");
                 api_case(&mut rep, &mut drv, seed, idx);
@@ -900,14 +1348,28 @@ fn main() {
             let seed = v["seed"].as_u64().unwrap_or(1);
             let idx = v["index"].as_u64().unwrap_or(0);
             if v["part"] == "cli" {
-                cli_part(&mut rep, seed, idx, 1);
+                cli_part(&mut rep, seed, idx, 1, true);
+            } else if v["part"] == "history" {
+                history_part(&mut rep, seed, idx, 1);
             } else {
-                let mut drv = Driver::spawn().expect("lean driver");
-                api_case(&mut rep, &mut drv, seed, idx);
+                // crash-isolated like the run itself: a dying process is the violation `test runner crash`
+                let (s, i) = (seed.to_string(), idx.to_string());
+                let (ended, out) = rotov_harness::worker::run_worker_keep_stdout(&["api", &s, &i, "1"], Duration::from_secs(900));
+                if let Some(v) = Report::parse_stdout(&out) {
+                    rep.merge_json(&v);
+                }
+                if !matches!(ended, Ended::Exit(0, _)) {
+                    let case = api_case_for(seed, idx);
+                    rep.violation(
+                        "process died (trap/abort/hang) while compiling or running the tests of a generated script",
+                        "test runner crash",
+                        json!({"part": "api", "seed": seed, "index": idx, "case": case_json(&case, false), "ended": format!("{ended:?}")}),
+                    );
+                }
             }
         }
         _ => {
-            eprintln!("usage: c19 run <seed> <quick|thorough> | replay <json>");
+            eprintln!("usage: c19 run <seed> <quick|thorough|search> | replay <json>");
             std::process::exit(64);
         }
     }
